@@ -23,6 +23,13 @@ Theorem C04_rtsp_parse_marshal : forall uok m rest,
 Proof. exact parse_marshal. Qed.
 Print Assumptions C04_rtsp_parse_marshal.
 
+(* wf_msg constrains the header as it goes on the wire, with_cl h body; this reduces it to the caller's
+   header: if that is well formed and has room for one more line, so is the one with Content-Length. *)
+Theorem C04_rtsp_wf_header_with_content_length : forall h b,
+  hdr_ok h -> nlen (flat h) + 1 <= rtsp_hdr_max_entries -> hdr_ok (with_cl h b).
+Proof. exact hdr_ok_with_cl. Qed.
+Print Assumptions C04_rtsp_wf_header_with_content_length.
+
 (* Any sequence of requests, responses and interleaved frames serialised back to back is read back as the
    same sequence (same method/status, URL, headers, body, channel, payload), and the reader then waits. *)
 Theorem C04_rtsp_parse_all_seq : forall uok ms,
